@@ -49,6 +49,12 @@ theorem op_doc_case (c : Ctx) (root : Val) (env : Env) (hr : EnvRel c root env) 
               simp only [if_true] at hre hres
               exact switch_case c root env hr gs hf hre res hres
             · simp only [hsw, if_false] at hre hres
+              by_cases hacc : accOps.contains k = true
+              · -- the code iterates over the keys of the argument document: outside D
+                simp only [hacc, if_true] at hre
+                simp at hre
+              have hacc' : accOps.contains k = false := by simpa using hacc
+              simp only [hacc', Bool.false_eq_true, if_false] at hre hres
               by_cases hst : strictOps.contains k = true
               · simp only [hst, if_true] at hre hres
                 obtain ⟨h12345, h6⟩ := append_nil2 hre
